@@ -149,13 +149,16 @@ Definition req_wf (q : request) : Prop :=
 Definition tc_ok (o : option create_task_cmd) : Prop :=
   match o with Some tc => ct_state tc = TInit \/ ct_state tc = TClaimed | None => True end.
 
+(* a create-with-task request (wt) carries its task command through every program point *)
+Definition wtc_ok (wt : bool) (o : option create_task_cmd) : Prop := tc_ok o /\ (wt = true -> o <> None).
+
 Definition k_ok (d : db) (k : kont) : Prop :=
   match k with
   | KReadP_to _ p cmd => prec d p /\ up_id cmd = p_id p /\ final_state (up_state cmd) = true
-  | KCreate _ tc _ => tc_ok tc
-  | KCreate_router _ tc _ _ => tc_ok tc
-  | KCreate_store _ tc0 _ _ tc => tc_ok tc0 /\ tc_ok tc
-  | KCreate_to _ tc _ p cmd => (prec d p /\ up_id cmd = p_id p /\ final_state (up_state cmd) = true) /\ tc_ok tc
+  | KCreate _ tc wt => wtc_ok wt tc
+  | KCreate_router _ tc wt _ => wtc_ok wt tc
+  | KCreate_store _ tc0 wt _ tc => wtc_ok wt tc0 /\ wtc_ok wt tc
+  | KCreate_to _ tc wt p cmd => (prec d p /\ up_id cmd = p_id p /\ final_state (up_state cmd) = true) /\ wtc_ok wt tc
   | KComplete r => user_state (cmr_state r) = true
   | KComplete_up r p cmd _ => prec d p /\ up_id cmd = p_id p /\ user_state (cmr_state r) = true /\ final_state (up_state cmd) = true
   | KCallback_ins p _ => prec d p
@@ -259,7 +262,7 @@ Definition k_expects (k : kont) (s : sub) : Prop :=
   | KSearchP q st tg lim sid => s = SStore [SearchPromises q st tg lim sid]
   | KBgTimeoutP => exists t l, s = SStore [ReadPromises t l]
   | KBgTimeoutT => exists t l, s = SStore [ReadTasks [TEnqueued; TClaimed] t l]
-  | KCreate_store _ _ _ pc _ => s = SStore [CreatePromise pc] \/ exists tc, s = SStore [CreatePromiseAndTask pc tc]
+  | KCreate_store _ _ _ pc tc => match tc with Some t => s = SStore [CreatePromiseAndTask pc t] | None => s = SStore [CreatePromise pc] end
   | KClaim_read t =>
     s = SStore (ReadPromise (m_root (t_mesg t)) ::
                 (if String.eqb (m_type (t_mesg t)) "resume" then [ReadPromise (m_leaf (t_mesg t))] else []))
@@ -354,7 +357,8 @@ Proof. intros d now cmd H. cbn. split; [repeat constructor; cbn; auto|left; eaut
 
 (* a store submission whose commands are all listed explicitly and contain no UpdatePromise *)
 Ltac sub_store := cbn; split; [repeat constructor; auto | right; repeat constructor].
-Ltac wait_ok := apply out_wait_ok; [sub_store | cbn; auto | cbn; eauto].
+Ltac wtc := unfold wtc_ok; cbn; split; [auto | intros Hwt; try discriminate Hwt; intros Hc; discriminate Hc].
+Ltac wait_ok := apply out_wait_ok; [sub_store | first [solve [cbn; auto] | solve [cbn; wtc] | cbn; auto] | cbn; eauto].
 Ltac timed :=
   first [ left; reflexivity
         | right; cbn; repeat constructor; intros;
@@ -452,25 +456,31 @@ Section Resume.
   Qed.
 
   Lemma create_cmd_shape : forall pc tc c cmd tc', create_cmd pc tc c = Some (cmd, tc') ->
-                                                   cmd = CreatePromise pc \/ exists t, cmd = CreatePromiseAndTask pc t.
+                                                   match tc' with
+                                                   | Some t => cmd = CreatePromiseAndTask pc t
+                                                   | None => cmd = CreatePromise pc /\ tc = None
+                                                   end.
   Proof.
     intros pc tc c cmd tc' H. unfold create_cmd in H.
     destruct c; try (destruct tc; inversion H; subst; auto; fail).
-    destruct recv; destruct tc; inversion H; subst; eauto.
+    destruct recv; destruct tc; inversion H; subst; auto.
   Qed.
 
   Lemma r_KCreate_router : forall r tc wt pc c, k_ok d (KCreate_router r tc wt pc) ->
                                                out_ok d now next (resume_seq cfg (KCreate_router r tc wt pc) c now next).
   Proof.
     intros r tc wt pc c Htc. cbn in Htc. cbn. destruct (create_cmd pc tc c) as [[cmd tc']|] eqn:E; [|fin].
-    destruct (create_cmd_any _ _ _ _ _ Htc E) as [Hany Htc'].
-    apply out_wait_ok; cbn; auto.
+    destruct (create_cmd_any _ _ _ _ _ (proj1 Htc) E) as [Hany Htc'].
+    pose proof (create_cmd_shape _ _ _ _ _ E) as Hsh.
+    apply out_wait_ok; cbn.
     - split; [repeat constructor; apply cmd_any_at; exact Hany|right; apply any_no_up; repeat constructor; exact Hany].
-    - destruct (create_cmd_shape _ _ _ _ _ E) as [->|[t ->]]; eauto.
+    - split; [exact Htc|]. split; [exact Htc'|]. intros Hwt. destruct tc' as [t|]; [discriminate|].
+      destruct Hsh as [_ Hn]. exfalso. exact (proj2 Htc Hwt Hn).
+    - destruct tc' as [t|]; [rewrite Hsh; reflexivity|rewrite (proj1 Hsh); reflexivity].
   Qed.
 
-  Lemma req_of_create_ok : forall r tc wt, tc_ok tc -> out_ok d now next (req_of_create r tc wt now next).
-  Proof. intros. unfold req_of_create. wait_ok. Qed.
+  Lemma req_of_create_ok : forall r tc wt, wtc_ok wt tc -> out_ok d now next (req_of_create r tc wt now next).
+  Proof. intros r tc wt H. unfold req_of_create. apply out_wait_ok; [sub_store|exact H|cbn; eauto]. Qed.
 
   Lemma r_KCreate_store : forall r tc0 wt pc tc s c, k_ok d (KCreate_store r tc0 wt pc tc) -> k_expects (KCreate_store r tc0 wt pc tc) s -> rdy_ok d s c ->
                                                      out_ok d now next (resume_seq cfg (KCreate_store r tc0 wt pc tc) c now next).
@@ -479,15 +489,15 @@ Section Resume.
     destruct x; try fin.
     - destruct wt; [fin|]. destruct (rows =? 0) eqn:E0; [apply req_of_create_ok; exact Htc0|]. fin1.
       apply Z.eqb_neq in E0.
-      destruct He as [->|[t ->]]; cbn in Hr; inversion Hr as [|? ? ? ? Hhd Htl]; subst.
-      + destruct Hhd as [n [E [Hn|Hn]]]; inversion E; subst; [contradiction|exact Hn].
+      destruct tc as [t|]; subst s; cbn in Hr; inversion Hr as [|? ? ? ? Hhd Htl]; subst.
       + destruct Hhd as [n [m [E _]]]. discriminate.
+      + destruct Hhd as [n [E [Hn|Hn]]]; inversion E; subst; [contradiction|exact Hn].
     - destruct (negb (prows =? trows)); [fin|]. destruct (prows =? 0) eqn:E0; [apply req_of_create_ok; destruct wt; assumption|].
       apply Z.eqb_neq in E0.
       assert (Hc : prec d (created_promise pc)).
-      { destruct He as [->|[t ->]]; cbn in Hr; inversion Hr as [|? ? ? ? Hhd Htl]; subst.
-        - destruct Hhd as [n [E _]]. discriminate.
-        - destruct Hhd as [n [m [E [Hn|Hn]]]]; inversion E; subst; [contradiction|exact Hn]. }
+      { destruct tc as [t|]; subst s; cbn in Hr; inversion Hr as [|? ? ? ? Hhd Htl]; subst.
+        - destruct Hhd as [n [m [E [Hn|Hn]]]]; inversion E; subst; [contradiction|exact Hn].
+        - destruct Hhd as [n [E _]]. discriminate. }
       destruct wt; fin.
   Qed.
 
